@@ -350,6 +350,8 @@ def shard(seed, idx, n, tier):
     res = core.Result()
     rng = core.rng_for(seed, "c20", idx)
     several_dirs_case(rng, res)
+    from harness.props import c10
+    c10.unreadable_case(rng, res, scheme="dir:")      # a contained file that cannot be read: no digest without it
     for _ in range(n):
         one_case(rng, res)
     if idx < 3:
